@@ -60,9 +60,15 @@ def oracle_reals(ctx, drv, lines, impl, label):
 def pinpoint_fault(exe, line):
     """an n2sra line died under the sanitizer: find the first (precision, format) that does"""
     singles = [single(line, p, f) for p in range(41) for f in range(3)]
-    out, faults = core.run_lines(exe, singles)
-    if faults:
-        i, kind, err = faults[0]
+    first = []
+
+    def stop(i, kind, err):
+        first.append((i, kind, err))
+        raise N.TooManyFaults()
+    try:
+        core.run_lines(exe, singles, timeout_per_batch=90, on_fault=stop)
+    except N.TooManyFaults:
+        i, kind, err = first[0]
         return singles[i], kind, err
     return line, None, ""
 
@@ -114,7 +120,11 @@ def run(ctx):
             ctx.infra_errors.append("cannot read replay %s: %s" % (ctx.replay, e))
 
     def run_real_lines(lines, label):
-        impl, faults = core.run_lines_parallel(exe, lines, jobs=14)
+        impl, faults = N.run_guarded(ctx, exe, lines, label)
+        if impl is None:
+            for _, kind, err in faults[:3]:
+                ctx.fail("fault:" + kind, "sanitizer fault / hang in NumberToString during stream " + label, {"stream": label, "stderr": err[-3000:]})
+            return ["FAULT abandoned"] * len(lines)
         model, _ = core.run_lines_parallel(drv, lines, jobs=14, env=None)
         for i, kind, err in faults:
             ln, k2, e2 = (lines[i], kind, err)
@@ -175,7 +185,9 @@ def run(ctx):
                          {"line": single(l, loc[0], loc[1]) if loc else l})
         # the texts must not depend on the character width or on the prefix: compare with the w=1, empty-stream text
         base = [real_line(kind, int(l.split(" ")[2], 16)) for l in wl]
-        bimpl, _ = core.run_lines_parallel(exe, base, jobs=14)
+        bimpl, _ = N.run_guarded(ctx, exe, base, "width-prefix-independence")
+        if bimpl is None:
+            bimpl = impl
         for l, o, bo in zip(wl, impl, bimpl):
             if o != bo and not o.startswith("FAULT") and "prefix-disturbed" not in o:
                 loc = N.locate(None, o, bo)
@@ -191,10 +203,13 @@ def run(ctx):
         pre = N.random_pre(rng) if k % 7 == 0 else []
         il.append("n2si %d %d %d %s %s" % (bits, sg, v, w, core.show_units(pre)))
     il += clines_i
-    impl, faults = core.run_lines_parallel(exe, il, jobs=14)
+    impl, faults = N.run_guarded(ctx, exe, il, "integer")
+    if impl is None:
+        impl = ["FAULT abandoned"] * len(il)
     model, _ = core.run_lines_parallel(drv, il, jobs=14, env=None)
     for i, kind, err in faults:
-        ctx.fail("fault:" + kind, "sanitizer fault in NumberToString (integer) on " + il[i], {"line": il[i], "stderr": err[-3000:]})
+        ln = il[i] if i is not None else "(stream abandoned)"
+        ctx.fail("fault:" + kind, "sanitizer fault in NumberToString (integer) on " + ln, {"line": ln, "stderr": err[-3000:]})
     ctx.correspond("integer", il, impl, model)
     for l, o in zip(il, impl):
         if o.startswith("FAULT"):
@@ -204,10 +219,13 @@ def run(ctx):
             ctx.fail("int:" + ("prefix-disturbed" if o == "prefix-disturbed" else "wrong-text"),
                      "integer %s prints '%s'" % (l, N.text(o)), {"line": l, "expected": l.split(" ")[3], "actual": N.text(o)})
     rl = ["n2sir %d %d" % (bits, v) for (bits, sg, v) in ic if sg == 0][::3]
-    impl, faults = core.run_lines_parallel(exe, rl, jobs=14)
+    impl, faults = N.run_guarded(ctx, exe, rl, "integer-reversed")
+    if impl is None:
+        impl = ["FAULT abandoned"] * len(rl)
     model, _ = core.run_lines_parallel(drv, rl, jobs=14, env=None)
     for i, kind, err in faults:
-        ctx.fail("fault:" + kind, "sanitizer fault in IntToString<true> on " + rl[i], {"line": rl[i], "stderr": err[-3000:]})
+        ln = rl[i] if i is not None else "(stream abandoned)"
+        ctx.fail("fault:" + kind, "sanitizer fault in IntToString<true> on " + ln, {"line": ln, "stderr": err[-3000:]})
     ctx.correspond("integer-reversed", rl, impl, model)
     for l, o in zip(rl, impl):
         want = core.show_units(core.units(l.split(" ")[2][::-1]))
